@@ -1,8 +1,564 @@
-// Package c01: stub (property not built yet).
+// Package c01: every storage backend and composition against the Lean model (Pk.Stores) and the
+// reference map oracle.
 package c01
 
-import "verifharness/hk"
+import (
+	"bytes"
+	"context"
+	"crypto/sha1"
+	"crypto/sha256"
+	"encoding/hex"
+	"fmt"
+	"sort"
+	"strconv"
+	"strings"
 
-func NewExec() func(w []string) string { return func([]string) string { return "bad-op" } }
+	"perkeep.org/pkg/blob"
+	"perkeep.org/pkg/blobserver"
 
-func Run(r *hk.Run) { r.Note("not built yet") }
+	"verifharness/hk"
+	"verifharness/stores"
+)
+
+var ctx = context.Background()
+
+// ---- interpreter ------------------------------------------------------------------------------------
+
+type execState struct {
+	env *stores.Env
+	sto blobserver.Storage
+}
+
+// ParseTree parses the prefix notation after `//`: kind[:max] children…
+func ParseTree(w []string) (*stores.Node, []string, bool) {
+	if len(w) == 0 {
+		return nil, nil, false
+	}
+	kind, maxs, _ := strings.Cut(w[0], ":")
+	n := &stores.Node{Kind: kind}
+	if maxs != "" {
+		v, err := strconv.Atoi(maxs)
+		if err != nil {
+			return nil, nil, false
+		}
+		n.Max = v
+	}
+	rest := w[1:]
+	arity := map[string]int{"mem": 0, "memcache": 0, "localdisk": 0, "diskpacked": 0, "ns": 1, "proxy": 2,
+		"overlay": 2, "shard": 2, "replica": 2, "cond": 2, "shard3": 3, "replica3": 3}[kind]
+	if _, ok := map[string]bool{"mem": true, "memcache": true, "localdisk": true, "diskpacked": true, "ns": true,
+		"proxy": true, "overlay": true, "shard": true, "replica": true, "cond": true, "shard3": true, "replica3": true}[kind]; !ok {
+		return nil, nil, false
+	}
+	if kind == "shard3" {
+		n.Kind = "shard"
+	}
+	if kind == "replica3" {
+		n.Kind = "replica"
+	}
+	for i := 0; i < arity; i++ {
+		k, r, ok := ParseTree(rest)
+		if !ok {
+			return nil, nil, false
+		}
+		n.Kids = append(n.Kids, k)
+		rest = r
+	}
+	return n, rest, true
+}
+
+func treeTokens(n *stores.Node) string {
+	k := n.Kind
+	if (k == "shard" || k == "replica") && len(n.Kids) == 3 {
+		k += "3"
+	}
+	if n.Max != 0 {
+		k += ":" + strconv.Itoa(n.Max)
+	}
+	for _, c := range n.Kids {
+		k += " " + treeTokens(c)
+	}
+	return k
+}
+
+func showSRs(tag string, l []stores.SR) string {
+	parts := []string{tag}
+	for _, x := range l {
+		parts = append(parts, fmt.Sprintf("%s:%d", hk.Hex([]byte(x.Key)), x.Size))
+	}
+	return strings.Join(parts, " ")
+}
+
+func refsOf(ws []string) ([]blob.Ref, bool) {
+	var out []blob.Ref
+	for _, w := range ws {
+		b, ok := hk.UnHex(w)
+		if !ok {
+			return nil, false
+		}
+		r, ok := blob.Parse(string(b))
+		if !ok {
+			return nil, false
+		}
+		out = append(out, r)
+	}
+	return out, true
+}
+
+func (st *execState) close() {
+	if st.env != nil {
+		st.env.Close()
+		st.env = nil
+	}
+}
+
+func (st *execState) exec(w []string) string {
+	if len(w) == 0 {
+		return "bad-op"
+	}
+	if w[0] == "cfg" {
+		st.close()
+		i := 0
+		for i < len(w) && w[i] != "//" {
+			i++
+		}
+		if i >= len(w)-1 {
+			return "bad-op"
+		}
+		n, rest, ok := ParseTree(w[i+1:])
+		if !ok || len(rest) != 0 {
+			return "bad-op"
+		}
+		env, err := stores.NewEnv()
+		if err != nil {
+			return "bad-op"
+		}
+		s, err := env.Build(n, nil)
+		if err != nil {
+			env.Close()
+			return "bad-op " + err.Error()
+		}
+		st.env, st.sto = env, s
+		return "ok"
+	}
+	if st.sto == nil {
+		return "bad-op"
+	}
+	switch w[0] {
+	case "recv":
+		if len(w) != 3 {
+			return "bad-op"
+		}
+		refs, ok := refsOf(w[1:2])
+		v, ok2 := hk.UnHex(w[2])
+		if !ok || !ok2 {
+			return "bad-op"
+		}
+		sb, err := blobserver.Receive(ctx, st.sto, refs[0], bytes.NewReader(v))
+		if err != nil {
+			return "err"
+		}
+		return fmt.Sprintf("sized %d", sb.Size)
+	case "fetch":
+		refs, ok := refsOf(w[1:])
+		if !ok || len(refs) != 1 {
+			return "bad-op"
+		}
+		b, cls := stores.Fetch(ctx, st.sto, refs[0])
+		if cls == "ok" {
+			return "bytes " + hk.Hex(b)
+		}
+		return cls
+	case "stat":
+		refs, ok := refsOf(w[1:])
+		if !ok {
+			return "bad-op"
+		}
+		l, cls := stores.Stat(ctx, st.sto, refs)
+		if cls != "ok" {
+			return cls
+		}
+		return showSRs("stats", l)
+	case "enum":
+		if len(w) != 3 {
+			return "bad-op"
+		}
+		a, ok := hk.UnHex(w[1])
+		n, err := strconv.Atoi(w[2])
+		if !ok || err != nil {
+			return "bad-op"
+		}
+		l, cls := stores.Enumerate(ctx, st.sto, string(a), n)
+		if cls != "ok" {
+			return cls
+		}
+		return showSRs("refs", l)
+	case "rm":
+		refs, ok := refsOf(w[1:])
+		if !ok {
+			return "bad-op"
+		}
+		if err := st.sto.RemoveBlobs(ctx, refs); err != nil {
+			return "err"
+		}
+		return "ok"
+	}
+	return "bad-op"
+}
+
+// NewExec returns a fresh interpreter; its temp directory lives until the next cfg or process exit.
+func NewExec() func(w []string) string {
+	st := &execState{}
+	return func(w []string) string {
+		return hk.Guard(func() string { return st.exec(w) })
+	}
+}
+
+// ---- generator + oracle -----------------------------------------------------------------------------
+
+type blobT struct {
+	key string
+	val []byte
+}
+
+func mkBlob(r *hk.Rand, kind int) blobT {
+	var v []byte
+	switch kind {
+	case 0:
+		v = nil
+	case 1:
+		v = []byte{byte(r.U64())}
+	case 2:
+		v = r.Bytes(20 + r.Intn(100))
+		if v[0] == '{' {
+			v[0] = 'x'
+		}
+	case 3:
+		v = []byte(fmt.Sprintf("{\"camliVersion\": 1,\n  \"camliType\": \"permanode\",\n  \"random\": \"%x\"\n}", r.Bytes(6)))
+	case 4:
+		v = []byte(fmt.Sprintf("{\"foo\": \"%x\"}", r.Bytes(4)))
+	default:
+		v = []byte(fmt.Sprintf("{\"camliVersion\": 1,\n  \"camliType\": \"bytes\",\n  \"parts\": [], \"n\": %d\n}", r.Intn(1000)))
+	}
+	var key string
+	switch r.Intn(5) {
+	case 0:
+		s := sha1.Sum(v)
+		key = "sha1-" + hex.EncodeToString(s[:])
+	case 1:
+		s := sha256.Sum256(v)
+		key = "sha256-" + hex.EncodeToString(s[:])
+	default:
+		s := sha256.Sum224(v)
+		key = "sha224-" + hex.EncodeToString(s[:])
+	}
+	return blobT{key, v}
+}
+
+func genTree(r *hk.Rand, depth int, asCache bool) *stores.Node {
+	leaf := func() *stores.Node {
+		switch r.Intn(6) {
+		case 0:
+			return &stores.Node{Kind: "localdisk"}
+		case 1:
+			return &stores.Node{Kind: "diskpacked", Max: []int{0, 150, 400, 2000}[r.Intn(4)]}
+		default:
+			return &stores.Node{Kind: "mem"}
+		}
+	}
+	if depth == 0 || r.Chance(20) {
+		return leaf()
+	}
+	switch r.Intn(7) {
+	case 0:
+		return &stores.Node{Kind: "ns", Kids: []*stores.Node{genTree(r, depth-1, false)}}
+	case 1:
+		cache := &stores.Node{Kind: "memcache", Max: []int{1, 60, 250, 100000}[r.Intn(4)]}
+		if r.Chance(30) {
+			cache = genTree(r, 0, false)
+		}
+		return &stores.Node{Kind: "proxy", Max: []int{1, 50, 300, 100000}[r.Intn(4)],
+			Kids: []*stores.Node{genTree(r, depth-1, false), cache}}
+	case 2:
+		return &stores.Node{Kind: "overlay", Kids: []*stores.Node{genTree(r, depth-1, false), genTree(r, depth-1, false)}}
+	case 3:
+		return &stores.Node{Kind: "shard", Kids: []*stores.Node{genTree(r, depth-1, false), genTree(r, depth-1, false)}}
+	case 4:
+		return &stores.Node{Kind: "replica", Kids: []*stores.Node{genTree(r, depth-1, false), genTree(r, depth-1, false)}}
+	case 5:
+		return &stores.Node{Kind: "cond", Kids: []*stores.Node{genTree(r, depth-1, false), genTree(r, depth-1, false)}}
+	default:
+		return leaf()
+	}
+}
+
+type caseRun struct {
+	r     *hk.Run
+	ex    func([]string) string
+	ref   map[string][]byte // the reference map (oracle)
+	pool  []blobT
+	label string
+	shape string
+	sawRmRecv, sawOddCursor bool
+	removed map[string]bool
+}
+
+func (c *caseRun) op(line string) string {
+	out := c.ex(strings.Fields(line))
+	c.r.Op(line, out)
+	return out
+}
+
+func (c *caseRun) fail(sig, detail, want, got string) {
+	c.r.Fail(sig, c.label+": "+detail, want, got, c.r.CaseOps())
+}
+
+func (c *caseRun) sortedKeys() []string {
+	ks := make([]string, 0, len(c.ref))
+	for k := range c.ref {
+		ks = append(ks, k)
+	}
+	sort.Strings(ks)
+	return ks
+}
+
+func (c *caseRun) cursor(rnd *hk.Rand) string {
+	keys := c.sortedKeys()
+	pick := func() string {
+		if len(keys) > 0 && rnd.Chance(70) {
+			return keys[rnd.Intn(len(keys))]
+		}
+		return c.pool[rnd.Intn(len(c.pool))].key
+	}
+	switch rnd.Intn(11) {
+	case 0, 1:
+		return ""
+	case 2:
+		return pick()
+	case 3:
+		k := pick()
+		return k[:len(k)-1]
+	case 4:
+		return pick() + "0"
+	case 5:
+		k := []byte(pick())
+		k[len(k)-1]++
+		return string(k)
+	case 6:
+		k := []byte(pick())
+		k[len(k)-1]--
+		return string(k)
+	case 7:
+		return []string{"sha1-", "sha224-", "sha224", "sha256-", "sha2", "s", "t", "sha1", "sha224-8", "sha256-f"}[rnd.Intn(10)]
+	case 8:
+		k := pick()
+		return k[:rnd.Intn(len(k))]
+	case 9:
+		return string(rnd.Bytes(1 + rnd.Intn(4)))
+	default:
+		k := pick()
+		i := rnd.Intn(len(k))
+		return k[:i] + string([]byte{byte(rnd.U64())}) + k[i:]
+	}
+}
+
+func (c *caseRun) step(rnd *hk.Rand) {
+	r := c.r
+	b := c.pool[rnd.Intn(len(c.pool))]
+	hk_ := hk.Hex([]byte(b.key))
+	switch x := rnd.Intn(100); {
+	case x < 30:
+		out := c.op("recv " + hk_ + " " + hk.Hex(b.val))
+		want := fmt.Sprintf("sized %d", len(b.val))
+		if out != want {
+			c.fail("receive-wrong-answer", "receive of "+b.key, want, out)
+		}
+		if c.removed[b.key] {
+			c.sawRmRecv = true
+		}
+		c.ref[b.key] = b.val
+	case x < 50:
+		out := c.op("fetch " + hk_)
+		want := "notexist"
+		if v, ok := c.ref[b.key]; ok {
+			want = "bytes " + hk.Hex(v)
+		}
+		if out != want {
+			sig := "fetch-mismatch"
+			if want == "notexist" {
+				sig = "fetch-serves-absent-blob"
+			} else if out == "notexist" {
+				sig = "fetch-loses-blob"
+			}
+			c.fail(sig, "fetch "+b.key, want, trunc(out))
+		}
+	case x < 65:
+		n := 1 + rnd.Intn(5)
+		seen := map[string]bool{}
+		var ks, hs []string
+		for i := 0; i < n; i++ {
+			k := c.pool[rnd.Intn(len(c.pool))].key
+			if !seen[k] {
+				seen[k] = true
+				ks = append(ks, k)
+				hs = append(hs, hk.Hex([]byte(k)))
+			}
+		}
+		out := c.op("stat " + strings.Join(hs, " "))
+		var want []stores.SR
+		for _, k := range ks {
+			if v, ok := c.ref[k]; ok {
+				want = append(want, stores.SR{Key: k, Size: uint32(len(v))})
+			}
+		}
+		sort.Slice(want, func(i, j int) bool { return want[i].Key < want[j].Key })
+		if w := showSRs("stats", want); out != w {
+			c.fail("stat-mismatch", "stat "+strings.Join(ks, ","), w, trunc(out))
+		}
+	case x < 88:
+		after := c.cursor(rnd)
+		limit := []int{1, 1, 2, 3, 4, 5, 7, 1000}[rnd.Intn(8)]
+		out := c.op("enum " + hk.Hex([]byte(after)) + " " + strconv.Itoa(limit))
+		var want []stores.SR
+		for _, k := range c.sortedKeys() {
+			if k > after && len(want) < limit {
+				want = append(want, stores.SR{Key: k, Size: uint32(len(c.ref[k]))})
+			}
+		}
+		if _, ok := blob.Parse(after); !ok && after != "" {
+			c.sawOddCursor = true
+			r.Hit("cursor:non-ref")
+		}
+		if w := showSRs("refs", want); out != w {
+			c.fail("enumerate-mismatch", fmt.Sprintf("enumerate after=%q limit=%d", after, limit), w, trunc(out))
+		}
+	default:
+		n := 1 + rnd.Intn(3)
+		seen := map[string]bool{}
+		var ks, hs []string
+		for i := 0; i < n; i++ {
+			k := c.pool[rnd.Intn(len(c.pool))].key
+			if !seen[k] {
+				seen[k] = true
+				ks = append(ks, k)
+				hs = append(hs, hk.Hex([]byte(k)))
+			}
+		}
+		out := c.op("rm " + strings.Join(hs, " "))
+		if out != "ok" {
+			sig := "remove-error"
+			for _, k := range ks {
+				if v, ok := c.ref[k]; ok && len(v) == 0 && strings.Contains(c.label, "diskpacked") {
+					sig = "diskpacked-remove-empty-blob-error"
+				}
+			}
+			c.fail(sig, "remove "+strings.Join(ks, ","), "ok", out)
+		}
+		for _, k := range ks {
+			if _, ok := c.ref[k]; ok {
+				c.removed[k] = true
+			}
+			delete(c.ref, k)
+		}
+	}
+}
+
+// paging: follow "cursor = last of page" with a fixed limit and demand the full sorted list once
+func (c *caseRun) paging(limit int) {
+	var got []string
+	after := ""
+	for i := 0; i < 1000; i++ {
+		out := c.op("enum " + hk.Hex([]byte(after)) + " " + strconv.Itoa(limit))
+		f := strings.Fields(out)
+		if len(f) == 0 || f[0] != "refs" {
+			c.fail("paging-error", "enumerate failed while paging", "refs …", trunc(out))
+			return
+		}
+		if len(f) == 1 {
+			break
+		}
+		for _, p := range f[1:] {
+			kh, _, _ := strings.Cut(p, ":")
+			kb, _ := hk.UnHex(kh)
+			got = append(got, string(kb))
+		}
+		after = got[len(got)-1]
+	}
+	want := c.sortedKeys()
+	if strings.Join(got, ",") != strings.Join(want, ",") {
+		c.fail("paging-mismatch", fmt.Sprintf("paging with limit %d", limit), fmt.Sprint(len(want), " refs once, in order"),
+			fmt.Sprint(len(got), " refs"))
+	}
+}
+
+func trunc(s string) string {
+	if len(s) > 300 {
+		return s[:300] + "…"
+	}
+	return s
+}
+
+// Run generates the C01 cases.
+func Run(r *hk.Run) {
+	rnd := r.R
+	r.Res.Rule = "a case = one random configuration tree (depth ≤ 3; leaves memory/localdisk/diskpacked[maxFileSize]; inner namespace, proxycache[max] over evicting memcache[max], overlay, shard, replica, cond[isSchema; read=remove=replica]) built through the registered storage constructors, then a random history of receive/fetch/stat/enumerate/remove over a pool of blobs (empty, 1 byte, random, schema JSON, non-schema JSON; sha1/sha224/sha256 refs) with cursors that are empty, refs, refs±1 char, truncated/extended refs, hash-name prefixes and arbitrary bytes, limits 1..7 and 1000, then paging with 3 page sizes. Every answer is compared with the reference map (oracle) and with the Lean model. distinct_nontrivial = distinct (tree shape, op-kind multiset) pairs whose history re-received a removed blob or enumerated with a non-ref cursor"
+	nTrees, nOps := 40, 120
+	if r.Thorough() {
+		nTrees, nOps = 500, 400
+	}
+	for t := 0; t < nTrees; t++ {
+		tree := genTree(rnd, 1+rnd.Intn(3), false)
+		tok, ok := tree.ModelToken()
+		if !ok {
+			continue
+		}
+		label := tree.String()
+		r.Case(label)
+		c := &caseRun{r: r, ex: NewExec(), ref: map[string][]byte{}, label: label, shape: tree.Shape(), removed: map[string]bool{}}
+		nb := 4 + rnd.Intn(10)
+		for i := 0; i < nb; i++ {
+			c.pool = append(c.pool, mkBlob(rnd, rnd.Intn(6)))
+		}
+		if out := c.op("cfg " + tok + " // " + treeTokens(tree)); out != "ok" {
+			r.Note("cannot build " + label + ": " + out)
+			continue
+		}
+		r.Hit("root:" + tree.Kind)
+		n := nOps/2 + rnd.Intn(nOps)
+		for i := 0; i < n; i++ {
+			c.step(rnd)
+		}
+		for _, l := range []int{1, 2 + rnd.Intn(3), 1000} {
+			c.paging(l)
+		}
+		hist := map[string]int{}
+		for _, o := range r.CaseOps() {
+			f, _, _ := strings.Cut(o, " ")
+			hist[f]++
+		}
+		if c.sawRmRecv || c.sawOddCursor {
+			r.Distinct(c.shape + fmt.Sprint(hist))
+		}
+		if t < 3 {
+			ops := r.CaseOps()
+			if len(ops) > 6 {
+				ops = ops[:6]
+			}
+			r.Sample(map[string]any{"tree": label, "first_ops": ops})
+		}
+		c.ex([]string{"cfg"}) // releases the temp dir (bad-op answer ignored)
+	}
+	probes(r)
+}
+
+func probes(r *hk.Run) {
+	// F-C01-1: diskpacked remove of the zero-length blob
+	ex := NewExec()
+	ex(strings.Fields("cfg mem // diskpacked"))
+	e := sha256.Sum224(nil)
+	k := hk.Hex([]byte("sha224-" + hex.EncodeToString(e[:])))
+	ex([]string{"recv", k, "-"})
+	out := ex([]string{"rm", k})
+	r.Probe("F-C01-1", out != "ok", "diskpacked RemoveBlobs(empty blob) -> "+out)
+	ex([]string{"cfg"})
+}
